@@ -4,7 +4,6 @@
 // View: n nodes with weights; for each node a the strictly ascending row
 // column[row[a] .. row[a+1]] of neighbours with parallel edge weights.
 // ======================================================================================
-use core::ops::Range;
 
 // ASSUMED (std): `<[T]>::binary_search` on a slice that is sorted w.r.t. `Ord`
 pub assume_specification<T: Ord>[ <[T]>::binary_search ](s: &[T], x: &T) -> (r: Result<usize, usize>)
